@@ -571,3 +571,149 @@ def constructed_operations(ctx):
             missing.append((e["kind"], "points differ", [x.round(4).tolist() for x in got[:2]], [y.round(4).tolist() for y in want[:2]]))
     ctx.prove("every-curved-edge-of-the-mesh-is-the-image-of-the-originals", ok, detail=missing[:3])
     ctx.prove("same-number-of-curved-edges", len(edges1) >= len(edges0))
+
+
+def _written_shape(entity):
+    from classy_blocks.mesh import Mesh
+
+    mesh = Mesh()
+    mesh.add(entity)
+    mesh.assemble()
+    edges = []
+    for e in mesh.edge_list.edges:
+        rec = {"kind": e.kind, "p1": np.asarray(e.vertex_1.position, dtype=float), "p2": np.asarray(e.vertex_2.position, dtype=float)}
+        if e.kind in ("arc", "origin", "angle"):
+            rec["pts"] = [np.asarray(e.third_point.position, dtype=float)]
+        elif e.kind in ("spline", "polyLine"):
+            rec["pts"] = [np.asarray(p, dtype=float) for p in e.point_array]
+        else:
+            rec["pts"] = []
+        edges.append(rec)
+    return [np.asarray(p, dtype=float) for op in entity.operations for p in op.point_array], edges
+
+
+def _shape(kind):
+    import classy_blocks as cb
+
+    c, e1, e2, n = np.array([0.4, -0.3, 0.2]), np.array([1.0, 0.0, 0.0]), np.array([0.0, 1.0, 0.0]), np.array([0.0, 0.0, 1.0])
+    if kind == "extruded-ring":
+        return cb.ExtrudedRing(c, c + n * 1.2, c + e1, 0.5, n_segments=8)
+    if kind == "cylinder":
+        return cb.Cylinder(c, c + n * 1.2, c + e1)
+    cls = {"quarter-spline-ring": cb.QuarterSplineRing, "half-spline-ring": cb.HalfSplineRing, "spline-ring": cb.SplineRing, "spline-disk": cb.SplineDisk}[kind]
+    args = [c, c + 1.4 * e1, c + e2, 0.3, 0.2] + ([0.3, 0.15] if kind.endswith("ring") else [])
+    return cb.ExtrudedShape(cls(*args), 0.9)
+
+
+@proof("C09", "bounded/constructed-shapes-transformed-twice", level="B", samples=4,
+       cases=[(c, k) for c in ("extruded-ring", "cylinder", "quarter-spline-ring", "half-spline-ring", "spline-ring", "spline-disk") for k in ("rotate", "scale")],
+       functions=["classy_blocks.base.element:ElementBase.transform", "classy_blocks.construct.flat.sketches.spline_round:QuarterSplineRing.parts",
+                  "classy_blocks.construct.flat.sketches.annulus:Annulus.__init__", "classy_blocks.construct.flat.sketch:Sketch.center"],
+       note="bounded stand-in: shapes built by the library (sketch edge data possibly shared between faces) are translated and then rotated / scaled "
+            "about their own centre (the default origin); corner points and every derived arc / spline point of the mesh are the images")
+def constructed_shapes(ctx):
+    ck, kind = ctx.case
+    rng = ctx.rng
+    s0, s1 = _shape(ck), _shape(ck)
+    pts0, edges0 = _written_shape(s0)
+    d = np.array([rng.uniform(-2, 2) for _ in range(3)])
+    centre0 = np.mean(pts0, axis=0) if not hasattr(s0, "center") else np.asarray(s0.center, dtype=float)
+    s1.translate(d)
+    if kind == "rotate":
+        ang, ax = rng.uniform(0.3, 2.5), np.array([rng.uniform(-1, 1), rng.uniform(-1, 1), rng.uniform(0.2, 1)])
+        s1.rotate(ang, ax)                     # about the shape's own centre
+        c_, s_ = math.cos(ang), math.sin(ang)
+        lin = lambda v: G.rot(ax / np.linalg.norm(ax), c_, s_, v)
+    else:
+        ratio = rng.uniform(0.5, 2)
+        s1.scale(ratio)
+        lin = lambda v: v * ratio
+    c1 = np.asarray(s1.center, dtype=float) if hasattr(s1, "center") else None
+    pts1, edges1 = _written_shape(s1)
+    # the centre the second transformation used is the image of the original centre: find it from the data (it is the fixed point)
+    want_c = centre0 + d
+    img = lambda x: want_c + np.asarray(lin(np.asarray(x, dtype=float) + d - want_c), dtype=float)
+    scale = 1 + max(np.abs(p).max() for p in pts0)
+    ctx.prove("corner-points-are-the-images", all(np.allclose(b, img(a), atol=1e-6 * scale) for a, b in zip(pts0, pts1)),
+              worst=float(max(np.linalg.norm(b - img(a)) for a, b in zip(pts0, pts1))))
+    ok, detail = True, []
+    for e in edges0:
+        a, b = img(e["p1"]), img(e["p2"])
+        match = [f_ for f_ in edges1 if f_["kind"] == e["kind"] and ((np.allclose(f_["p1"], a, atol=1e-6 * scale) and np.allclose(f_["p2"], b, atol=1e-6 * scale))
+                                                                      or (np.allclose(f_["p1"], b, atol=1e-6 * scale) and np.allclose(f_["p2"], a, atol=1e-6 * scale)))]
+        if not match:
+            ok = False
+            detail.append((e["kind"], "no edge between the images of its end points"))
+            continue
+        f_ = match[0]
+        want = [img(p) for p in e["pts"]]
+        got = f_["pts"] if np.allclose(f_["p1"], a, atol=1e-6 * scale) else f_["pts"][::-1]
+        if len(got) != len(want) or not all(np.allclose(x, y, atol=1e-5 * scale) for x, y in zip(got, want)):
+            ok = False
+            detail.append((e["kind"], [x.round(4).tolist() for x in got[:1]], [y.round(4).tolist() for y in want[:1]]))
+    ctx.prove("every-curved-edge-of-the-mesh-is-the-image-of-the-originals", ok, detail=detail[:3])
+
+
+def _sketch(kind):
+    import classy_blocks as cb
+    from classy_blocks.construct.flat.sketches.annulus import Annulus
+
+    c, e1, e2, n = np.array([0.4, -0.3, 0.2]), np.array([1.0, 0.0, 0.0]), np.array([0.0, 1.0, 0.0]), np.array([0.0, 0.0, 1.0])
+    if kind == "annulus":
+        return Annulus(c, c + e1, n, 0.5, 8)
+    if kind in ("one-core-disk", "four-core-disk", "half-disk"):
+        return {"one-core-disk": cb.OneCoreDisk, "four-core-disk": cb.FourCoreDisk, "half-disk": cb.HalfDisk}[kind](c, c + e1, n)
+    if kind == "oval":
+        return cb.Oval(c - e1, c + e1, n, 0.6)
+    cls = {"quarter-spline-ring": cb.QuarterSplineRing, "half-spline-ring": cb.HalfSplineRing, "spline-ring": cb.SplineRing,
+           "spline-disk": cb.SplineDisk, "quarter-spline-disk": cb.QuarterSplineDisk}[kind]
+    return cls(*([c, c + 1.4 * e1, c + e2, 0.3, 0.2] + ([0.3, 0.15] if kind.endswith("ring") else [])))
+
+
+def _sketch_data(sketch):
+    pts = [np.asarray(p, dtype=float) for f_ in sketch.faces for p in f_.point_array]
+    extra = []
+    for f_ in sketch.faces:
+        for d in f_.edges:
+            if d.kind == "spline":
+                extra += [np.asarray(p, dtype=float) for p in d.curve.discretize()]
+            elif d.kind == "origin":
+                extra.append(np.asarray(d.origin.position, dtype=float))
+            elif d.kind == "arc":
+                extra.append(np.asarray(d.point.position, dtype=float))
+    return pts, extra
+
+
+@proof("C09", "bounded/sketches-transformed-twice", level="B", samples=4,
+       cases=[(c, k) for c in ("annulus", "one-core-disk", "four-core-disk", "half-disk", "oval", "quarter-spline-disk", "spline-disk", "quarter-spline-ring",
+                               "half-spline-ring", "spline-ring") for k in ("rotate", "scale", "list")],
+       functions=["classy_blocks.base.element:ElementBase.transform", "classy_blocks.construct.flat.sketch:Sketch.center", "classy_blocks.construct.flat.sketch:Sketch.parts",
+                  "classy_blocks.construct.flat.sketches.spline_round:QuarterSplineRing.parts", "classy_blocks.construct.flat.sketches.disk:DiskBase.center"],
+       note="bounded stand-in: every sketch class is translated and then rotated / scaled about its own centre (default origin), by method calls "
+            "and by a transformation list: face points, spline edge points and arc centres are the images under the composition")
+def sketches_twice(ctx):
+    ck, kind = ctx.case
+    rng = ctx.rng
+    s0, s1 = _sketch(ck), _sketch(ck)
+    pts0, extra0 = _sketch_data(s0)
+    c0 = np.asarray(s0.center, dtype=float).copy()
+    d = np.array([rng.uniform(-2, 2) for _ in range(3)])
+    ang, ax = rng.uniform(0.3, 2.5), np.array([rng.uniform(-1, 1), rng.uniform(-1, 1), rng.uniform(0.2, 1)])
+    ratio = rng.uniform(0.5, 2)
+    c_, s_ = math.cos(ang), math.sin(ang)
+    if kind == "rotate":
+        s1.translate(d).rotate(ang, ax)
+        lin = lambda v: G.rot(ax / np.linalg.norm(ax), c_, s_, v)
+    elif kind == "scale":
+        s1.translate(d).scale(ratio)
+        lin = lambda v: v * ratio
+    else:
+        s1.transform([tr.Translation(d), tr.Rotation(ax, ang), tr.Scaling(ratio)])   # origins default to the centre at that moment
+        lin = lambda v: G.rot(ax / np.linalg.norm(ax), c_, s_, v) * ratio
+    c1 = c0 + d
+    img = lambda x: c1 + np.asarray(lin(np.asarray(x, dtype=float) + d - c1), dtype=float)
+    pts1, extra1 = _sketch_data(s1)
+    scale = 1 + max(np.abs(p).max() for p in pts0)
+    ctx.prove("face-points-are-the-images", len(pts0) == len(pts1) and all(np.allclose(b, img(a), atol=1e-6 * scale) for a, b in zip(pts0, pts1)))
+    ctx.prove("edge-data-are-the-images", len(extra0) == len(extra1) and all(np.allclose(b, img(a), atol=1e-5 * scale) for a, b in zip(extra0, extra1)))
+    ctx.prove("centre-is-the-image-of-the-centre", bool(np.allclose(np.asarray(s1.center, dtype=float), c1, atol=1e-6 * scale)), got=np.asarray(s1.center, dtype=float).tolist(), want=c1.tolist())
